@@ -167,3 +167,21 @@ package socket
 //@   requires sa != nil
 //@   ensures typeis(res, "*unix.SockaddrInet4") && ref(res) != nil && as4(res).Port == sa.Port &&
 //@        as4(res).Addr[0] == sa.Addr[0] && as4(res).Addr[1] == sa.Addr[1] && as4(res).Addr[2] == sa.Addr[2] && as4(res).Addr[3] == sa.Addr[3]
+
+// tcpof(a, sa): the net.Addr a reports exactly the kernel address sa of a stream socket (family, address bytes, port, path).
+//@ pred tcpof(a net.Addr, sa unix.Sockaddr) :=
+//@     (typeis(sa, "*unix.SockaddrInet4") ==> typeis(a, "*net.TCPAddr") && ref(a) != nil && astcp(a).Port == as4(sa).Port && len(astcp(a).IP) == 4 &&
+//@          astcp(a).IP[0] == as4(sa).Addr[0] && astcp(a).IP[1] == as4(sa).Addr[1] && astcp(a).IP[2] == as4(sa).Addr[2] && astcp(a).IP[3] == as4(sa).Addr[3]) &&
+//@     (typeis(sa, "*unix.SockaddrInet6") ==> typeis(a, "*net.TCPAddr") && ref(a) != nil && astcp(a).Port == as6(sa).Port && len(astcp(a).IP) == 16 &&
+//@          (forall k :: 0 <= k && k < 16 ==> astcp(a).IP[k] == as6(sa).Addr[k])) &&
+//@     (typeis(sa, "*unix.SockaddrUnix") ==> typeis(a, "*net.UnixAddr") && ref(a) != nil && asunix(a).Name == asun(sa).Name)
+//
+// Accept: accept4(2) with SOCK_NONBLOCK|SOCK_CLOEXEC (assumed): a new descriptor owned by the caller, registered nowhere,
+// with a fresh byte stream in both directions, and the peer's address; or an error and nothing.
+//@ func Accept(fd int) (nfd int, sa unix.Sockaddr, err error)
+//@   noverify accept4(2) wrapper (kernel interface)
+//@   requires owner[fd] != nil
+//@   modifies owner, polled, armed, kpos, spos
+//@   ensures err == nil ==> nfd >= 0 && nfd != fd && owner[nfd] != nil && !polled[nfd] && !armed[nfd] && kpos[nfd] == 0 && spos[nfd] == 0 && old(owner[nfd]) == nil
+//@   ensures err == nil ==> (typeis(sa, "*unix.SockaddrInet4") || typeis(sa, "*unix.SockaddrInet6") || typeis(sa, "*unix.SockaddrUnix")) && ref(sa) != nil
+//@   ensures forall f :: f != nfd || err != nil ==> owner[f] == old(owner[f]) && polled[f] == old(polled[f]) && armed[f] == old(armed[f]) && kpos[f] == old(kpos[f]) && spos[f] == old(spos[f])
